@@ -80,7 +80,7 @@ PROPS = {
         "assumptions": ["float estimator output abstracted: theorems quantify over all coefficients/shifts/orders", "source contract: read_samples delivers min(block_size, remaining) samples"],
     },
     "C02": {
-        "theorem_modules": ["FlacVerif.Theorems.C02", "FlacVerif.Theorems.C02Gen", "FlacVerif.Theorems.C02Hdr", "FlacVerif.Theorems.C01Strict"], "uses_gen": ["tables", "headers"],
+        "theorem_modules": ["FlacVerif.Theorems.C02", "FlacVerif.Theorems.C02Gen", "FlacVerif.Theorems.C02Hdr", "FlacVerif.Theorems.C01Strict", "FlacVerif.Theorems.C08Gen3"], "uses_gen": ["tables", "headers", "writer", "sink", "utf8"],
         "streams": {"quick": [("stream", ["--cases", 400, "--max-samples", 6000]), ("kernel", ["--cases", 30])],
                     "thorough": [("stream", ["--cases", 2000, "--max-samples", 24000]), ("kernel", ["--cases", 300])],
                     "search": [("stream", ["--cases", 1500, "--max-samples", 12000])]},
@@ -148,7 +148,7 @@ KERNEL_RULE = ("kernel stream: integer kernels called through the cfg(flacenc_ve
 
 PROPS.update({
     "C08": {
-        "theorem_modules": ["FlacVerif.Theorems.C08", "FlacVerif.Theorems.C12", "FlacVerif.Theorems.C08Gen"], "uses_gen": ["headers", "writer"],
+        "theorem_modules": ["FlacVerif.Theorems.C08", "FlacVerif.Theorems.C12", "FlacVerif.Theorems.C08Gen", "FlacVerif.Theorems.C08Gen3", "FlacVerif.Lemmas.GenCount"], "uses_gen": ["headers", "writer", "sink", "utf8"],
         "streams": {"quick": [("comp", ["--cases", 120]), ("kernel", ["--cases", 30]), ("stream", ["--cases", 120, "--max-samples", 4000]), ("stream", ["--cases", 3, "--max-samples", 36000, "--focus", "manyframes"]), ("stream", ["--cases", 40, "--max-samples", 9000, "--focus", "loud"])],
                     "thorough": [("comp", ["--cases", 3000]), ("kernel", ["--cases", 200]), ("stream", ["--cases", 1000, "--max-samples", 24000])],
                     "search": [("comp", ["--cases", 1500]), ("stream", ["--cases", 800, "--max-samples", 9000])]},
@@ -201,7 +201,7 @@ PAR_RULE = ("par stream: corpus (the three confirmed failures of F8: read error,
 
 PROPS.update({
     "C05": {
-        "extra": c05_extra, "uses_gen": ["constants", "par"],
+        "extra": c05_extra, "uses_gen": ["constants", "config", "par"],
         "theorem_modules": ["FlacVerif.Theorems.C05", "FlacVerif.Theorems.C06Gen", "FlacVerif.Theorems.C06GenCor"],
         "streams": {"quick": [("par", ["--cases", 150])], "thorough": [("par", ["--cases", 6000])], "search": [("par", ["--cases", 1500])]},
         "diff_prefix": ["c05."], "oracle_fields": ["o_c05"], "rule": PAR_RULE,
@@ -212,7 +212,7 @@ PROPS.update({
         "assumptions": ["source contract: read_samples fills the buffer with the samples it reports; a non-final read delivers a non-empty block (an empty data block is the hasher's stop token: C05_empty_block_hash_mismatch shows what a contract-violating source causes)"],
     },
     "C06": {
-        "uses_gen": ["constants", "par"],
+        "uses_gen": ["constants", "config", "par"],
         "theorem_modules": ["FlacVerif.Theorems.C06", "FlacVerif.Theorems.C06Gen", "FlacVerif.Theorems.C06GenCor"],
         "streams": {"quick": [("par", ["--cases", 150])], "thorough": [("par", ["--cases", 6000])], "search": [("par", ["--cases", 1500])]},
         "diff_prefix": ["c06."], "oracle_fields": ["o_c06"], "rule": PAR_RULE,
